@@ -187,7 +187,10 @@ def install():
 # ---------------------------------------------------------------------------
 # systems
 
-OWNERS = {'A': 'proid.a-1-aaaa', 'B': 'proid.b-2-bbbb', 'X': 'proid.x-9-xxxx'}
+# A and B are two incarnations of one instance, X another instance
+OWNERS = {'A': 'proid.app-0000000001-AAAAAAAAAAAAA',
+          'B': 'proid.app-0000000001-BBBBBBBBBBBBB',
+          'X': 'proid.app-0000000002-XXXXXXXXXXXXX'}
 
 
 class System:
